@@ -169,3 +169,80 @@ func Go(name string, f func() (any, error)) *Task {
 
 // Done reports whether the actor has returned (call after Wait).
 func (t *Task) Done() bool { return t.done }
+
+// LateChooser is the part of the explorer's Chooser that Burst needs.
+type LateChooser interface {
+	ChooseLate(label string) (choice, handle int)
+	FixLate(handle, n int)
+}
+
+// Burst makes the order of goroutines *inside* one burst of activity (between
+// two quiescent points) a dimension of the exploration, by delay-bounded
+// scheduling in the determinised runtime: every time the scheduler picks a
+// goroutine of the bubble while another one is runnable too is a numbered
+// decision of the step. A step may carry one deviation: the goroutine due at
+// decision k goes to the back of the run queue once ("delay"), or every time
+// its turn comes while anything else can run ("slow"). The menu of a step
+// (2 x decisions + 1) is only known when the step is over, hence the late
+// choice. A nil *Burst does nothing.
+type Burst struct {
+	c         LateChooser
+	handle    int
+	Decisions int // decisions seen so far, over all steps
+	Deviated  int // deviations taken so far
+}
+
+// NewBurst returns nil unless the determinised runtime is linked in.
+func NewBurst(c LateChooser) *Burst {
+	if !verifdetrt.On {
+		return nil
+	}
+	return &Burst{c: c, handle: -1}
+}
+
+// Begin is called right before the stimulus of a step is applied. It returns
+// a description of the deviation chosen for this step ("" for none).
+func (b *Burst) Begin() string {
+	if b == nil {
+		return ""
+	}
+	if b.handle >= 0 {
+		b.End()
+	}
+	d, hd := b.c.ChooseLate("scheduler deviation in this step")
+	b.handle = hd
+	switch {
+	case d == 0:
+		verifdetrt.SetDelay(0, false)
+		return ""
+	case d%2 == 1:
+		b.Deviated++
+		verifdetrt.SetDelay((d+1)/2, false)
+		return fmt.Sprintf(" [the goroutine due at scheduling decision %d of this step goes to the back of the run queue]", (d+1)/2)
+	default:
+		b.Deviated++
+		verifdetrt.SetDelay(d/2, true)
+		return fmt.Sprintf(" [the goroutine due at scheduling decision %d of this step only runs when nothing else can, until the step ends]", d/2)
+	}
+}
+
+// End is called at the quiescent point that ends the step (after Wait).
+func (b *Burst) End() {
+	if b == nil || b.handle < 0 {
+		return
+	}
+	n := verifdetrt.DelayCount()
+	verifdetrt.SetDelay(0, false)
+	b.Decisions += n
+	h := b.handle
+	b.handle = -1
+	b.c.FixLate(h, 2*n+1)
+}
+
+// Off disarms without fixing a menu (end of an execution).
+func (b *Burst) Off() {
+	if b != nil {
+		verifdetrt.SetDelay(0, false)
+		b.handle = -1
+	}
+}
